@@ -203,11 +203,24 @@ def all_module_containers():
     return out
 
 
+def all_module_scalars():
+    """(module, name) of every module-level int / float / bool / str / None global of the autograd modules (counters, flags)."""
+    out = []
+    for mname, mod in list(sys.modules.items()):
+        if not (mname == "autograd" or mname.startswith("autograd.")) or mod is None:
+            continue
+        for k, v in list(vars(mod).items()):
+            if not k.startswith("__") and (v is None or type(v) in (int, float, bool, str)):
+                out.append((mod, k))
+    return out
+
+
 class View:
     def __init__(self):
         self.objs = tracked_objects()
         self.conts = tracked_containers()
         self.all_conts = all_module_containers()
+        self.scalars = all_module_scalars()
 
     def now(self):
         return tuple(tuple(sorted((k, repr(v)) for k, v in vars(o).items())) for _, o in self.objs) + \
@@ -216,10 +229,13 @@ class View:
     def snapshot(self):
         # (a) attributes of module-level instances, (b) shallow contents of every module-level container: an execution must
         # start from the same library state, including caches that a previous schedule (or the solo reference run) filled
-        return [dict(vars(o)) for _, o in self.objs], [_copy.copy(c) for c in self.all_conts]
+        return [dict(vars(o)) for _, o in self.objs], [_copy.copy(c) for c in self.all_conts], [getattr(m, k, None) for m, k in self.scalars]
 
     def restore(self, snap):
-        objs, conts = snap
+        objs, conts, scal = snap
+        for (m, k), v in zip(self.scalars, scal):
+            if getattr(m, k, None) is not v and getattr(m, k, None) != v:
+                setattr(m, k, v)
         for (_, o), d in zip(self.objs, objs):
             cur = vars(o)
             if cur != d:
@@ -353,7 +369,7 @@ class Execution:
                 except Deadlock:
                     self.results[tid] = ("DEADLOCK",)
                 except BaseException as e:  # noqa
-                    self.results[tid] = ("EXC", type(e).__name__, str(e)[:80])
+                    self.results[tid] = ("EXC", type(e).__name__, __import__("re").sub(r"0x[0-9a-fA-F]+", "0x..", str(e))[:80])
                 finally:
                     _CUR.sched = None
                     self.alive.remove(tid)
